@@ -224,7 +224,9 @@ func runCliScenario(t *testing.T, sc cliScenario) cliOutcome {
 		for _, d := range sc.Dels {
 			d := d
 			add(d.At, func() {
-				if !closed {
+				if !closed && d.Kind == dgReadError {
+					conn.Fail(errors.New("read: connection refused"))
+				} else if !closed {
 					conn.Deliver(ad.datagram(d.Kind, d.Xid, d.Typ, d.Serial, d.Op, d.HType, d.PadTo), ad.dest())
 				}
 			})
@@ -391,6 +393,7 @@ func modelCli(sc cliScenario) ([]cliResult, []cliWrite) {
 		return evs[a].seq < evs[b].seq
 	})
 	closedAt := -1
+	readDead := false
 	var writes []cliWrite
 	finish := func(c *mCall, at int, r cliResult) {
 		if c.state != 1 {
@@ -482,7 +485,12 @@ func modelCli(sc cliScenario) ([]cliResult, []cliWrite) {
 			}
 		case 3:
 			d := sc.Dels[e.idx]
-			if closedAt >= 0 || !passesFilters(sc.V6, d) {
+			if d.Kind == dgReadError && closedAt < 0 {
+				// the socket failed a read: the receive loop is gone, nothing that arrives later reaches a call; the
+				// calls keep their schedules
+				readDead = true
+			}
+			if closedAt >= 0 || readDead || !passesFilters(sc.V6, d) {
 				continue
 			}
 			for _, c := range calls {
@@ -653,6 +661,22 @@ func cmpCliLoose(prop, name string, sc cliScenario, got cliOutcome) *obs.Fail {
 			}
 			if !ok {
 				return obs.Failf(prop+"/"+name+"/wrong-response", fmt.Sprintf("call %d returns a datagram of its own transaction that arrived while it waited and satisfies its matcher", i), "serial %d (type %d) at tick %d", g.Serial, g.Typ, g.At)
+			}
+			// a datagram taken from the queue that built up while the matcher was held is the first acceptable one of
+			// that queue (the queue keeps arrival order; what arrives after the release may belong to a later try)
+			var gd *cliDeliver
+			for k := range sc.Dels {
+				if sc.Dels[k].Serial == g.Serial {
+					gd = &sc.Dels[k]
+				}
+			}
+			if gd != nil && gd.At < c.ReleaseAt {
+				for k := range sc.Dels {
+					e := sc.Dels[k]
+					if e.Serial != g.Serial && passesFilters(sc.V6, e) && e.Xid == c.Xid && e.Typ == c.Want && e.At >= c.Start && (e.At < gd.At || (e.At == gd.At && e.Serial < gd.Serial)) {
+						return obs.Failf(prop+"/"+name+"/wrong-response", fmt.Sprintf("call %d returns the first acceptable datagram of the queue (serial %d, arrived at tick %d)", i, e.Serial, e.At), "serial %d (arrived at tick %d)", g.Serial, gd.At)
+					}
+				}
 			}
 		case "no-response":
 		default:
